@@ -1359,8 +1359,16 @@ def opc11_step_semantics(ctx: Ctx) -> None:
                 return f"<t{counter[0]}>"
             insn = SimpleNamespace(opname=op_, offset=0, starts_line=None, is_jump_target=False, opcode=0, **fields)
             stack = list(init)
-            m = Mini({"insns": [insn, insn], "idx": 0, "stack": stack, "insn": insn, "True": True}, dict(helpers), {nt.name: fresh})
+            m = Mini({"insns": [insn, insn], "idx": 0, "insn": insn, "True": True}, dict(helpers), {nt.name: fresh})
             try:
+                # the decoder's per-target state (declared before the loop) starts as the code initialises it; the operand list is ours
+                for pst in nt.body:
+                    if pst is loop:
+                        break
+                    if isinstance(pst, (ast.Assign, ast.AnnAssign)):
+                        m.stmt(pst)
+                m.env["stack"] = stack
+                m.env["idx"] = 0
                 ctl = m.run(loop.body)
                 got = m.env.get("stack")
             except Raised as ex:
